@@ -51,7 +51,7 @@ R1_FILES = [
     "ab/a", "ab/b.liquid",
     # seeded alphabet: unicode, backslash, tilde, blank
     "ü", "ü.liquid", "日本/ä", "日本/ä.liquid",
-    "a\\b", "..\\ab", "\\", "~/a", "~b", "a b", "a b.liquid",
+    "a\\b", "..\\ab", "\\", "~/a", "~/x", "~/secret.txt", "~root/x", "~b", "a b", "a b.liquid",
 ]
 R2_FILES = [
     "a/a", "a/a.liquid", "a/b", "b", "b.liquid", "b.b", "ba", "a.b/a", ".a", "ab/a", "a.liquid/a",
@@ -60,8 +60,13 @@ R2_FILES = [
 DECOYS_T = [
     "ab", "ba", "ab.liquid", "ab.b", "a.b", "a.liquid", "b.b", "b.liquid", ".a", "...liquid",
     "secret", "secret.liquid", "c/a", "c/a.liquid", "__init__.py", "ü", "a\\b",
+    # directories literally named "~" and "~root": inside the search path when it is cwd = T
+    "~/x", "~/secret.txt", "~/a", "~/a.liquid", "~root/x",
 ]
-DECOYS_OUT = ["secret", "secret.liquid", "a", "ab", "ab.liquid", "b.b"]
+# HOME of the run is <scratch>/home: what "~" would expand to
+DECOYS_OUT = ["secret", "secret.liquid", "a", "ab", "ab.liquid", "b.b",
+              "home/x", "home/x.liquid", "home/secret.txt", "home/secret.liquid", "home/a", "home/a.liquid",
+              "home/.a", "home/b/a"]
 
 
 class Tree:
@@ -91,9 +96,17 @@ class Tree:
 
 
 # ------------------------------------------------------- loader configurations
-# (label, kind, roots, ext): roots are 'a' / 'b' (T/a, T/b); kind:
-#   fsl | cfsl | rel (FileSystemLoader with search paths relative to cwd = T)
+# (label, kind, roots, ext): roots are keys of ROOT_SPECS; kind:
+#   fsl | cfsl (absolute search paths)
+#   rel | crel (FileSystemLoader / CachingFileSystemLoader with search paths RELATIVE to the
+#               process cwd = T, as written in ROOT_SPECS: '.', '', Path(), './a' ...)
 #   pkg | choice (list of member configs) | cchoice
+
+# key -> (search path as given to a relative loader / package_path, components below T)
+ROOT_SPECS: dict[str, tuple[Any, list[str]]] = {
+    "a": ("a", ["a"]), "b": ("b", ["b"]),
+    ".": (".", []), "": ("", []), "Path()": (Path(), []), "./a": ("./a", ["a"]), "b/": ("b/", ["b"]),
+}
 
 CONFIGS: list[tuple[str, str, Any, Any]] = [
     ("fsl[a]", "fsl", ["a"], None),
@@ -114,6 +127,14 @@ CONFIGS: list[tuple[str, str, Any, Any]] = [
      [("", "pkg", ["b"], ".liquid"), ("", "choice", [("", "fsl", ["a"], None)], None)], None),
     ("cchoice[fsl[b],fsl[a]]", "cchoice",
      [("", "fsl", ["b"], None), ("", "fsl", ["a"], None)], None),
+    # the search path is the current directory: a joined path begins with the template name
+    ("fsl-rel[.]", "rel", ["."], None),
+    ("fsl-rel[''].liquid", "rel", [""], ".liquid"),
+    ("fsl-rel[./a,Path()]", "rel", ["./a", "Path()"], None),
+    ("cfsl-rel[b/,.]", "crel", ["b/", "."], None),
+    ("choice[pkg[b],fsl-rel[.]]", "choice",
+     [("", "pkg", ["b"], ".liquid"), ("", "rel", ["."], None)], None),
+    ("pkg[.]", "pkg", ["."], ".liquid"),
 ]
 
 
@@ -132,16 +153,21 @@ def mk_loader(cfg: tuple, T: Path):
                          FileSystemLoader, PackageLoader)
     _, kind, roots, ext = cfg
     if kind == "fsl":
-        sp: Any = [T / r for r in roots]
+        sp: Any = [T.joinpath(*ROOT_SPECS[r][1]) for r in roots]
         if len(sp) == 1:
             sp = str(sp[0])          # a single str search path
         return FileSystemLoader(sp, ext=ext)
-    if kind == "rel":
-        return FileSystemLoader(list(roots), ext=ext)
+    if kind in ("rel", "crel"):
+        sp = [ROOT_SPECS[r][0] for r in roots]
+        if len(sp) == 1:
+            sp = sp[0]               # a single str / Path search path: ".", "", Path()
+        if kind == "rel":
+            return FileSystemLoader(sp, ext=ext)
+        return CachingFileSystemLoader(sp, ext=ext, capacity=50)
     if kind == "cfsl":
-        return CachingFileSystemLoader([str(T / r) for r in roots], ext=ext, capacity=50)
+        return CachingFileSystemLoader([str(T.joinpath(*ROOT_SPECS[r][1])) for r in roots], ext=ext, capacity=50)
     if kind == "pkg":
-        pp: Any = roots[0] if len(roots) == 1 else list(roots)
+        pp: Any = ROOT_SPECS[roots[0]][0] if len(roots) == 1 else [ROOT_SPECS[r][0] for r in roots]
         return PackageLoader(PKG, package_path=pp, ext=ext)
     members = [mk_loader(m, T) for m in roots]
     if kind == "choice":
@@ -162,7 +188,11 @@ def _worker_init(outer: str) -> None:
     T = Path(outer) / PKG
     if outer not in sys.path:
         sys.path.append(outer)
+    # worker processes only: cwd is the scratch package directory (relative search
+    # paths resolve against it) and HOME is a scratch decoy directory, so that a
+    # "~" that got expanded would be seen by the oracle
     os.chdir(T)
+    os.environ["HOME"] = str(Path(outer) / "home")
     from liquid2 import Environment
     envs = []
     for cfg in CONFIGS:
@@ -236,7 +266,7 @@ def _touches_disk(name: str) -> bool:
         cands = [p]
         if p.name:
             cands += [p.with_name(p.name + e) for e in (".liquid", ".b")]
-        for root in ("a", "b"):
+        for root in ("a", "b", "."):
             for c in cands:
                 if os.path.lexists(os.path.join(root, str(c))):      # cwd = T
                     return True
@@ -314,14 +344,15 @@ def c_path(s: str) -> str:
 
 
 def c_root(r: str, rel: bool = False) -> str:
-    return f"(mkpath Rel [{C.cstr(r)}])" if rel else f"(mkpath Root1 (TT ++ [{C.cstr(r)}]))"
+    segs = C.clist(map(C.cstr, ROOT_SPECS[r][1]), "str")
+    return f"(mkpath Rel {segs})" if rel else f"(mkpath Root1 (TT ++ {segs}))"
 
 
 def c_loader(cfg: tuple) -> str:
     _, kind, roots, ext = cfg
     if kind in ("choice", "cchoice"):
         return "(Choice " + C.clist(map(c_loader, roots), "loader") + ")"
-    rs = C.clist((c_root(r, kind == "rel") for r in roots), "ppath")
+    rs = C.clist((c_root(r, kind in ("rel", "crel")) for r in roots), "ppath")
     if kind == "pkg":
         return f"(PKG {rs} {C.cstr(ext)})"
     return f"(FSL {rs} {C.copt(C.cstr(ext) if ext is not None else None, 'str')})"
@@ -427,7 +458,7 @@ class Oracle:
     def __init__(self, tree: Tree, chk: C.Check) -> None:
         self.tree = tree
         self.chk = chk
-        self.real_roots = {r: os.path.realpath(tree.T / r) for r in ("a", "b")}
+        self.real_roots = {r: os.path.realpath(tree.T.joinpath(*segs)) for r, (_, segs) in ROOT_SPECS.items()}
         self.failures = 0
         self.by_sig: dict[str, int] = {}
 
@@ -501,6 +532,22 @@ def seeded_names(tree: Tree, tier: str) -> list[str]:
     for p in ("/etc/passwd", "/etc/hostname", "/etc/hosts"):
         if os.path.isfile(p):
             out += [p, "/" + p, "//" + p, "a/.." * 8 + p, "../" * 12 + p[1:]]
+    # "~" never expands: these are ordinary relative names (directories literally
+    # called "~", "~root" exist in the tree; $HOME/x, $HOME/secret.txt, ~root/<file> exist outside)
+    out += ["~/x", "~/secret.txt", "~/secret", "~/a", "~/b/a", "~/.a", "~//x", "~/./x", "./~/x", "a/~/x", "a/~/a",
+            "b/~/x", "~root/x", "~root", "~root/", "~nosuchuser13/x", "~/x/", "~/x.liquid", "~x", "~~/x", "~/~/x",
+            "~/../home/x", "~/..", "a/~", "a/~root/x",
+            # environment-variable look-alikes: ordinary names too
+            "$HOME/x", "${HOME}/secret.txt", "$HOME", "a/$HOME/x", "%HOME%/x"]
+    try:
+        import pwd
+        hd = pwd.getpwnam("root").pw_dir
+        for f in (".bashrc", ".profile", ".bash_logout"):
+            if os.path.isfile(os.path.join(hd, f)):
+                out += ["~root/" + f, "a/~root/" + f]
+                break
+    except Exception:  # noqa: BLE001
+        pass
     out += ["~", "~/a", "~root", "~/", "\\", "a\\b", "..\\ab", "..\\..\\ab", "a\0", "\0", "a\0/../ab", "../ab\0",
             "ü", "日本/ä", "日本/../ü", "a b", " ", " /a", "a/ ", "..%2fab",
             "．．/ab", "..∕ab", f"../{PKG}/ab", f"../../{PKG}/a/a", f"../../{tree.outer.name}/{PKG}/a/a",
@@ -618,7 +665,7 @@ def _main(chk: C.Check, tree: Tree, thorough: bool) -> None:
     dist = {"found": 0, "not_found": 0, "other_exception": 0, "loads": 0, "tag_paths_skipped": 0,
             "async_paths_skipped": 0}
     nontrivial: set[str] = set()
-    n_found = n_escape_target = n_dir = 0
+    n_found = n_escape_target = n_dir = n_tilde = 0
     extra_cases = 0
 
     def obs(o: tuple) -> tuple:
@@ -669,7 +716,7 @@ def _main(chk: C.Check, tree: Tree, thorough: bool) -> None:
         # measured non-triviality of the case
         esc_target = False
         if is_escaping(name):
-            for root in ("a", "b"):
+            for root in ("a", "b", "."):
                 for e in ("", ".liquid", ".b"):
                     try:
                         j = os.path.join(str(tree.T / root), name + e)
@@ -680,13 +727,26 @@ def _main(chk: C.Check, tree: Tree, thorough: bool) -> None:
         is_dir = False
         if not is_escaping(name) and "\0" not in name:
             try:
-                is_dir = any(os.path.isdir(os.path.join(str(tree.T / root), name)) for root in ("a", "b"))
+                is_dir = any(os.path.isdir(os.path.join(str(tree.T / root), name)) for root in ("a", "b", "."))
             except (ValueError, OSError):
                 is_dir = False
+        # a leading "~" that WOULD expand (HOME of the run = <scratch>/home, or the
+        # password database for "~user") to an existing file outside the tree roots
+        tilde_target = False
+        if name.startswith("~") and "\0" not in name:
+            head, _, rest = name.partition("/")
+            base = str(tree.outer / "home") if head == "~" else os.path.expanduser(head)
+            if not base.startswith("~"):
+                for e in ("", ".liquid", ".b"):
+                    try:
+                        tilde_target = tilde_target or os.path.isfile(os.path.join(base, rest) + e if rest else base)
+                    except (ValueError, OSError):
+                        pass
+        n_tilde += tilde_target
         n_found += found_any
         n_escape_target += esc_target
         n_dir += is_dir
-        if found_any or esc_target or is_dir:
+        if found_any or esc_target or is_dir or tilde_target:
             nontrivial.add(name)
 
     # extension sweep (valid and invalid default extensions): model tie for
@@ -714,7 +774,7 @@ def _main(chk: C.Check, tree: Tree, thorough: bool) -> None:
                what="PathResolve.get_source", shard=400 if thorough else 350)
 
     samples = []
-    for want in ("b/a", "../ab", "", str(tree.T / "secret")):
+    for want in ("b/a", "../ab", "", "~/x", str(tree.T / "secret")):
         if want in names:
             i = names.index(want)
             shown = want.replace(str(tree.outer), "<scratch>")
@@ -726,16 +786,19 @@ def _main(chk: C.Check, tree: Tree, thorough: bool) -> None:
                  "seeded names (absolute paths of every file of the scratch tree incl. the decoys with 1-3 leading slashes, "
                  "/etc/passwd, unicode, backslash, NUL, '~', lone surrogates, look-alike dots and slashes, random joins of a "
                  f"segment pool) x {len(CONFIGS)} loader configurations (FileSystemLoader, CachingFileSystemLoader, PackageLoader, "
-                 "ChoiceLoader, nested ChoiceLoader, CachingChoiceLoader; one / two / reversed / cwd-relative search paths; ext None, "
+                 "ChoiceLoader, nested ChoiceLoader, CachingChoiceLoader; one / two / reversed search paths, absolute or relative to the process cwd incl. the cwd itself as '.', '', Path(), './a', 'b/'; "
+                 "HOME points at a scratch decoy directory; ext None, "
                  "'', '.liquid', '.b') x 8 access paths (get_template, get_template_async, include / render / extends in a template, "
                  f"each sync and async; for exhaustive names of exactly length {maxlen} the four async paths are run only when a sync "
                  "path did not answer TemplateNotFoundError or the unguarded join of the name, with or without an extension, "
                  f"touches something on disk); plus {len(ext_jobs)} (default extension x name) cases incl. invalid extensions. "
                  "non-trivial = names that some configuration served from a search directory, escaping names whose unguarded join "
-                 "hits an existing file outside the search directory, and names that resolve to a directory"),
+                 "hits an existing file outside the search directory, names that resolve to a directory, and names with a leading '~' "
+                 "whose user-directory expansion would hit an existing file"),
         "samples": samples,
         "distribution": dict(dist, names=len(names), names_found_somewhere=n_found,
                              escaping_names_with_existing_target=n_escape_target, names_of_directories=n_dir,
+                             tilde_names_with_existing_expansion_target=n_tilde,
                              extra_access_path_cases=extra_cases, oracle_failures=orc.failures,
                              oracle_failures_by_signature=orc.by_sig,
                              files_in_tree=len(tree.content)),
